@@ -1,4 +1,5 @@
 import Proofs.Lemmas.Genesis
+import Proofs.Lemmas.DepositTree
 /-!
 # C13 — genesis construction equals `initialize_beacon_state_from_eth1`
 
@@ -9,7 +10,7 @@ The specification transcription is `Zrnt.Beacon.Genesis.initialize_beacon_state_
 satisfies, for **all** deposit lists) and about the Merkle machinery, parametric in the hash.
 -/
 namespace Zrnt.Proofs.C13
-open Zrnt.Beacon Zrnt.Beacon.Spec Zrnt.Beacon.Genesis Zrnt.Proofs.Genesis
+open Zrnt.Beacon Zrnt.Beacon.Spec Zrnt.Beacon.Genesis Zrnt.Proofs.Genesis Zrnt.Proofs.DepositTree
 
 variable {cfg : Config} {cp : Bool} {hash : Bytes} {time : Nat} {deps : List DepositIn} {s : State}
 
@@ -111,9 +112,59 @@ theorem genesis_time_and_root (h : initialize_beacon_state_from_eth1 cfg hash ti
   obtain ⟨_, _, _, _, ht, hr⟩ := initialize_ok_decomp h
   exact ⟨ht, hr⟩
 
+/-! ## The incremental deposit root -/
+
+section Merkle
+open Zrnt.Beacon.Genesis.Merkle
+variable {α : Type} (H : α → α → α) (z0 : α) (Z : Nat → α) (lenNode : Nat → α)
+
+/-- **Incremental deposit root.** For every node type, every two-to-one hash `H`, every zero-hash table `Z`
+(`Z k` = root of the all-zero tree of height `k`) and every depth: feeding the leaves one by one to the deposit
+contract's incremental algorithm (`deposit()`: `Inc.push`, `get_deposit_root()`: `Inc.root`) yields
+`mix_in_length(merkleize(leaves, limit = 2^depth), len(leaves))` — the SSZ specification read literally (pad
+with zero chunks to `2^depth` leaves, hash the perfect tree, mix in the length) — as long as the tree is not
+full. In particular after each deposit `i` the root is the `hash_tree_root` of the first `i + 1` leaves. -/
+theorem incremental_deposit_root (hZ : ∀ k, Z k = zeroAt H z0 k) (depth : Nat) (leaves : List α)
+    (hlen : leaves.length < 2 ^ depth) :
+    (leaves.foldl (Inc.push H) (Inc.empty z0 depth)).root H Z lenNode =
+      H (merkleizeSpec H z0 depth leaves) (lenNode leaves.length) := by
+  have inv := foldl_push_spec H z0 depth leaves [] (Inc.empty z0 depth) (brInv_empty H z0 depth) (by simpa using hlen)
+  simp only [List.nil_append] at inv
+  have hc := inv.count
+  have := root_spec H z0 Z hZ lenNode inv (by rw [← hc]; exact hlen)
+  simpa using this
+
+/-- the same for every prefix: the root after deposit `i` is that of the first `i + 1` leaves -/
+theorem incremental_deposit_root_prefix (hZ : ∀ k, Z k = zeroAt H z0 k) (depth : Nat) (leaves : List α)
+    (hlen : leaves.length < 2 ^ depth) (i : Nat) :
+    ((leaves.take (i + 1)).foldl (Inc.push H) (Inc.empty z0 depth)).root H Z lenNode =
+      H (merkleizeSpec H z0 depth (leaves.take (i + 1))) (lenNode (leaves.take (i + 1)).length) :=
+  incremental_deposit_root H z0 Z lenNode hZ depth _ (by
+    have : (leaves.take (i + 1)).length ≤ leaves.length := by simp [List.length_take]
+    omega)
+
+/-- the executable list root used by the specification transcription (`depositListRoot`, `htrValidators`) is the
+literal SSZ one -/
+theorem listRoot_eq_spec (hZ : ∀ k, Z k = zeroAt H z0 k) (depth : Nat) (l : List α) :
+    listRoot H Z lenNode depth l = H (merkleizeSpec H z0 depth l) (lenNode l.length) := by
+  unfold listRoot
+  rw [treeRootZ_eq_spec H z0 Z hZ]
+
+end Merkle
+
+/-- Instance for SHA-256 and the deposit tree: the root the code-shaped model maintains incrementally is the
+specification's `hash_tree_root(List[DepositData, 2^32])` of the same leaves. -/
+theorem inc_root_eq_depositListRoot (leaves : List Bytes) (hlen : leaves.length < 2 ^ 32) :
+    (leaves.foldl (Merkle.Inc.push H2) (Merkle.Inc.empty ZERO32 DEPOSIT_CONTRACT_TREE_DEPTH)).root H2 zeroFn lenNode =
+      depositListRoot leaves := by
+  rw [depositListRoot, listRoot_eq_spec H2 ZERO32 zeroFn lenNode zeroFn_eq,
+    incremental_deposit_root H2 ZERO32 zeroFn lenNode zeroFn_eq DEPOSIT_CONTRACT_TREE_DEPTH leaves hlen]
+
 /-- non-vacuity: the construction succeeds (here: on the empty deposit list) -/
 example (cfg : Config) (hash : Bytes) (h : 5 + cfg.GENESIS_DELAY < 2 ^ 64) :
     ∃ s, initialize_beacon_state_from_eth1 cfg hash 5 [] = .ok s := by
-  simp [initialize_beacon_state_from_eth1, u64, h, processGenesisDeposits, bind, Except.bind, pure, Except.pure]
+  unfold initialize_beacon_state_from_eth1 u64
+  simp only [h, ite_true, bind, Except.bind, pure, Except.pure, processGenesisDeposits]
+  exact ⟨_, rfl⟩
 
 end Zrnt.Proofs.C13
